@@ -668,6 +668,35 @@ pub fn gen_program(rng: &mut Rng, opts: &GenOpts) -> Module {
         submodules.push(("s".to_string(), Module { submodules: subsub, functions: sfs, imports: sub_imports }));
     }
     let mut functions = functions;
+    if rng.chance(1, 5) {
+        // library callbacks nested in library callbacks: the inner closure names a parameter of the
+        // outer callback (its parent's local) and a variable of main (its parent's captured
+        // variable) - same slot numbers, different capture kinds
+        if let Some((_, main)) = functions.iter_mut().find(|(n, _)| n == "main") {
+            let lim = rng.range(1, 4);
+            let rows: Vec<Vec<i64>> = (0..rng.range(2, 5)).map(|_| (0..rng.range(1, 4)).map(|_| rng.range(0, 7)).collect()).collect();
+            let mut cards = vec![Card::set_var("xlim", int(lim)), Card::set_var("ttt", c(CardBody::CreateTable))];
+            for (j, r) in rows.iter().enumerate() {
+                cards.push(Card::set_var(format!("trow{j}"), c(CardBody::Array(r.iter().map(|v| int(*v)).collect()))));
+                cards.push(bin(CardBody::AppendTable, read(&format!("trow{j}")), read(&"ttt".to_string())));
+            }
+            let inner_fn = *rng.pick(&["std.any", "std.filter", "std.map"]);
+            let inner = c(CardBody::Closure(Box::new(Function {
+                arguments: vec!["k2".into(), "v2".into(), "i2".into()],
+                cards: vec![Card::return_card(bin(CardBody::Equals, read(&"v2".to_string()), bin(CardBody::Mul, c(CardBody::Len(cao_lang::compiler::UnaryExpression::new(read(&"v".to_string())))), read(&"xlim".to_string()))))],
+            })));
+            let outer = c(CardBody::Closure(Box::new(Function {
+                arguments: vec!["k".into(), "v".into(), "i".into()],
+                cards: vec![Card::return_card(Card::call_function(inner_fn, vec![inner, read(&"v".to_string())]))],
+            })));
+            let outer_fn = *rng.pick(&["std.filter", "std.map", "std.any"]);
+            cards.push(Card::set_global_var("outlib", Card::call_function(outer_fn, vec![outer, read(&"ttt".to_string())])));
+            let at = main.cards.len().min(5);
+            for (j, cd) in cards.into_iter().enumerate() {
+                main.cards.insert(at + j, cd);
+            }
+        }
+    }
     if rng.chance(1, 4) {
         // script-level table operations on one table (also reached through an alias): explicit
         // integer keys at or above the length followed by appends, nil keys and nil values, pops,
@@ -864,7 +893,60 @@ pub fn gen_program(rng: &mut Rng, opts: &GenOpts) -> Module {
 pub fn gen_malformed(rng: &mut Rng) -> Module {
     let mut m = gen_program(rng, &GenOpts { size: 2, with_submodules: true });
     let body = |cards: Vec<Card>| Function { arguments: vec![], cards };
-    match rng.below(22) {
+    // one time in six the offending name is long and non-ASCII (error payloads copy the name)
+    let long_name = |rng: &mut Rng| -> String {
+        let n = rng.range(50, 110) as usize;
+        format!("{}{}", "x".repeat(rng.range(0, 3) as usize), "é".repeat(n))
+    };
+    if rng.chance(1, 6) {
+        let nm = long_name(rng);
+        match rng.below(6) {
+            0 => m.functions[0].1.cards.push(Card::set_var("q", Card::call_function(nm, vec![]))),
+            1 => {
+                m.functions.push((nm.clone(), body(vec![int(1)])));
+                m.functions.push((nm, body(vec![int(2)])));
+            }
+            2 => {
+                m.submodules.push((nm.clone(), Module::default()));
+                m.submodules.push((nm, Module::default()));
+            }
+            3 => m.functions.push((format!("{nm} bad"), body(vec![]))),
+            4 => m.imports.push(nm),
+            _ => {
+                m.imports.push(format!("a.{nm}"));
+                m.imports.push(format!("b.{nm}"));
+            }
+        }
+        return m;
+    }
+    match rng.below(24) {
+        22 | 23 => {
+            // imports are per module: a module without imports does not see its parent's
+            let util_f = ("f".to_string(), body(vec![Card::return_card(int(1))]));
+            let child_calls = |name: &str| Module { functions: vec![("g".into(), body(vec![Card::set_var("q", Card::call_function(name, vec![]))]))], ..Default::default() };
+            let a = match rng.below(3) {
+                0 => Module {
+                    imports: vec!["super.util.f".into()],
+                    functions: vec![("own".into(), body(vec![int(1)]))],
+                    submodules: vec![("util".into(), Module { functions: vec![util_f], ..Default::default() }), ("b".into(), child_calls("f"))],
+                },
+                1 => Module {
+                    imports: vec!["lib.b".into()],
+                    functions: vec![("own".into(), body(vec![int(1)]))],
+                    submodules: vec![("c".into(), {
+                        let mut c = child_calls("b.f");
+                        c.submodules.push(("lib".into(), Module { submodules: vec![("b".into(), Module { functions: vec![util_f], ..Default::default() })], ..Default::default() }));
+                        c
+                    })],
+                },
+                _ => Module {
+                    imports: vec!["super.super.f".into()],
+                    functions: vec![util_f],
+                    submodules: vec![("b".into(), Module { submodules: vec![("c".into(), child_calls("f"))], ..Default::default() })],
+                },
+            };
+            m.submodules.push(("aa".into(), a));
+        }
         16..=21 => {
             // a defect deep in the tree: below a chain of 0-3 single-child modules hanging off a
             // random module, a module with one of the module-level defects
